@@ -47,6 +47,10 @@ def c08_cases(rng, n):
         for (lis, cl) in chosen:
             for path in PATHS:
                 steps.append({"op": "http", "listener": lis, "client": cl, "path": path})
+        # sequences of requests on one keep-alive connection: every request is a decision of its own
+        for (lis, cl) in [c for c in chosen if c[0] in ("tcp4", "tcp6", "dual4", "dual6")][:5]:
+            for _ in range(2):
+                steps.append({"op": "http_seq", "listener": lis, "client": cl, "paths": [rng.choice(PATHS) for _ in range(rng.choice([2, 3, 4, 6]))]})
         cases.append({"acls": rules, "steps": steps})
     return cases
 
